@@ -477,6 +477,29 @@ func runSequence(r *vf.Run, sub subject, steps []step) bool {
 			c.OnValueGet(func() interface{} { return v })
 			p, text = vf.Recover(func() { c.GetValueFromConnection(theConn) })
 			c.OnValueGet(nil)
+		case "nested-local", "nested-remote":
+			// the update is made from INSIDE an update callback of the same characteristic (an application that corrects or
+			// mirrors a value in its callback): an outer update with an ordinary value triggers the callback, the callback
+			// passes on the hostile value
+			r.Count("updates_nested_in_a_callback", 1)
+			remote := st.Mode == "nested-remote"
+			armed := true
+			nest := func() {
+				if armed {
+					armed = false
+					if remote {
+						c.UpdateValueFromConnection(v, theConn)
+					} else {
+						c.UpdateValue(v)
+					}
+				}
+			}
+			c.OnValueUpdate(func(*characteristic.Characteristic, interface{}, interface{}) { nest() })
+			p, text = vf.Recover(func() { c.UpdateValue(triggerValue(c)) })
+			if armed {
+				r.Count("nested_updates_whose_outer_update_changed_nothing", 1)
+			}
+			armed = false
 		case "get-local":
 			// the application's own read (typed getters and GetValue go through the same get callback)
 			r.Count("updates_via_get_callback_read_locally", 1)
@@ -628,9 +651,9 @@ func run(r *vf.Run, repo string) {
 	}
 	modesFor := func(v *hval) []string {
 		if v.Native {
-			return []string{"local", "get", "get-local"} // a controller cannot send a Go int8
+			return []string{"local", "get", "get-local", "nested-local"} // a controller cannot send a Go int8
 		}
-		return []string{"local", "remote", "get", "get-local"}
+		return []string{"local", "remote", "get", "get-local", "nested-local", "nested-remote"}
 	}
 
 	// ---- 1. every subject x every value x every mode, once and twice in a row
@@ -702,4 +725,43 @@ func run(r *vf.Run, repo string) {
 
 	// ---- 4. the HTTP path
 	runHTTP(r, jsonVals, synth)
+}
+
+// triggerValue returns an ordinary value of the characteristic's format, inside its bounds, that differs from what it holds.
+func triggerValue(c *characteristic.Characteristic) interface{} {
+	switch c.Format {
+	case characteristic.FormatBool:
+		b, _ := c.Value.(bool)
+		return !b
+	case characteristic.FormatFloat:
+		lo := 0.0
+		if m, ok := c.MinValue.(float64); ok {
+			lo = m
+		}
+		if m, ok := c.MaxValue.(float64); ok && lo > m {
+			lo = m
+		}
+		if cur, ok := c.Value.(float64); ok && cur == lo {
+			if m, ok := c.MaxValue.(float64); !ok || lo+1 <= m {
+				return lo + 1
+			}
+			return lo - 1
+		}
+		return lo
+	case characteristic.FormatString, characteristic.FormatTLV8, characteristic.FormatData:
+		if s, _ := c.Value.(string); s == "AQID" {
+			return "BAUG"
+		}
+		return "AQID"
+	}
+	lo := 0
+	if m, ok := c.MinValue.(int); ok {
+		lo = m
+	}
+	if cur, ok := c.Value.(int); ok && cur == lo {
+		if m, ok := c.MaxValue.(int); !ok || lo+1 <= m {
+			return lo + 1
+		}
+	}
+	return lo
 }
